@@ -18,6 +18,19 @@ pub fn run() {
         }
         return;
     }
+    if args.len() >= 4 && args[2] == "dumpjson" {
+        use llguidance::api::{GrammarInit, ParserLimits};
+        let v: serde_json::Value = serde_json::from_str(&args[3]).unwrap();
+        let gi = GrammarInit::Serialized(TopLevelGrammar::from_json_schema(v));
+        match gi.to_internal(None, ParserLimits::default()) {
+            Err(e) => println!("rejected: {e}"),
+            Ok((gram, lex)) => {
+                println!("--- before ---\n{}", gram.to_string(Some(&lex)));
+                println!("--- after ---\n{}", gram.optimize().to_string(Some(&lex)));
+            }
+        }
+        return;
+    }
     if args.len() >= 5 && args[2] == "walk" {
         // llgverif probe walk '<lark>' 't1,t2,...' : commit the tokens, print the mask after each
         let mut ws: Vec<Vec<u8>> = (0..=255u8).map(|b| vec![b]).collect();
